@@ -1,0 +1,67 @@
+//go:build verif
+
+package signaling_rpc_server
+
+// VerifMailbox is the abstract state of one sessionPeerTracker (0 = unset).
+type VerifMailbox struct {
+	Present   bool
+	Recv      uint64
+	HasRecv   bool
+	RecvSent  uint64
+	HasSent   bool
+	RecvClear uint64
+	HasClear  bool
+	OutAcked  uint64
+	HasAcked  bool
+}
+
+// VerifSession is the abstract state of one sessionTracker.
+type VerifSession struct {
+	PeerA, PeerB string
+	Seqno        uint64
+	A, B         VerifMailbox
+}
+
+// VerifPeer is the abstract state of one serverPeerTracker.
+type VerifPeer struct {
+	ID          string
+	Listening   bool
+	ListenNonce uint64
+	Wants       []string
+}
+
+// VerifSnapshot returns a projection of the relay state, taken under s.mtx.
+func (s *Server) VerifSnapshot() (sessions []VerifSession, peers []VerifPeer) {
+	s.mtx.Lock()
+	defer s.mtx.Unlock()
+	mb := func(t *sessionPeerTracker) (m VerifMailbox) {
+		if t == nil {
+			return
+		}
+		m.Present = true
+		if t.recv != nil {
+			m.HasRecv, m.Recv = true, t.recv.GetSeqno()
+		}
+		if t.recvSent != nil {
+			m.HasSent, m.RecvSent = true, *t.recvSent
+		}
+		if t.recvClear != nil {
+			m.HasClear, m.RecvClear = true, *t.recvClear
+		}
+		if t.outAcked != nil {
+			m.HasAcked, m.OutAcked = true, *t.outAcked
+		}
+		return
+	}
+	for k, t := range s.sessions {
+		sessions = append(sessions, VerifSession{PeerA: k.peerA, PeerB: k.peerB, Seqno: t.seqno, A: mb(t.peerA), B: mb(t.peerB)})
+	}
+	for id, p := range s.peers {
+		vp := VerifPeer{ID: id, Listening: p.listening, ListenNonce: p.listenNonce}
+		for w := range p.wantPeers {
+			vp.Wants = append(vp.Wants, w)
+		}
+		peers = append(peers, vp)
+	}
+	return
+}
